@@ -95,6 +95,8 @@ def targets(tier):
 
 def gen_pair(rng):
     d = int(rng.integers(1, 5))
+    if rng.random() < 0.06:
+        d = int(rng.integers(16, 25))  # wide data (more columns than a space-partitioning tree is usually given)
     n1 = int(rng.integers(2, 28))
     n2 = n1 if rng.random() < 0.3 else int(rng.integers(2, 28))
     lattice = rng.random() < 0.45
@@ -138,6 +140,8 @@ def run_pair(case, ctx):
         ctx.count("pairs_large_offset_fine_grid")
     if lattice == "timestamps":
         ctx.count("pairs_with_a_timestamp_feature")
+    if s1.shape[1] >= 16:
+        ctx.count("pairs_with_16plus_columns")
     p = NNSpacePartitioner(k)
     p.build(s1.copy(), s2.copy())
     if "literal" not in case and case["seed"][-1] % 3 == 0:
